@@ -125,6 +125,8 @@ func genMixedTx(rng *rand.Rand, g *GenesisSpec) Op {
 			// the address the contract will get already holds coins of another denomination only
 			return Op{K: "bank", W: (w + 1) % g.Wallets, To: fmt.Sprintf("cr:%d:%d", w, rng.IntN(2)), Val: pick(rng, "1", "1000000"), Denom: "utwo", Price: "b+1", Gas: "200000"}
 		}
+	case k < 76 && rng.IntN(2) == 0: // write a slot at an end of the key space, possibly self-destructing afterwards
+		return genSlotWrite(rng, w)
 	case k < 78: // call something created earlier in the run
 		op.To = fmt.Sprintf("n:%d", rng.IntN(40))
 		op.Data = hexWord(rng.IntN(9)) + hexWord(0)
@@ -162,6 +164,18 @@ func genMixedTx(rng *rand.Rand, g *GenesisSpec) Op {
 		op.Via = "check"
 	}
 	return op
+}
+
+// genSlotWrite: a write to slot 0 / 1 / 2^255 / 2^256-2 / 2^256-1 of the slot-writer contract (the genesis one or
+// one created earlier), possibly followed by its self-destruct; or the creation of a fresh slot writer.
+func genSlotWrite(rng *rand.Rand, w int) Op {
+	if rng.IntN(5) == 0 {
+		return Op{K: "eth", W: w, Init: "slotw", Gas: "i+300000", Price: "b+1", Tip: "1"}
+	}
+	key := pick(rng, "ffffffffffffffffffffffffffffffffffffffffffffffffffffffffffffffff", "ffffffffffffffffffffffffffffffffffffffffffffffffffffffffffffffff",
+		"fffffffffffffffffffffffffffffffffffffffffffffffffffffffffffffffe", "8000000000000000000000000000000000000000000000000000000000000000", hexWord(0), hexWord(1))
+	return Op{K: "eth", W: w, To: pick(rng, "c:slotw", "c:slotw", fmt.Sprintf("n:%d", rng.IntN(30))), Data: key + hexWord(pick(rng, 0x63, 1, 0)) + hexWord(pick(rng, 0, 0, 0, 1)),
+		Gas: "i+200000", Price: "b+1", Tip: "1"}
 }
 
 func genMixed(prop string) func(rng *rand.Rand, seed uint64, tier string) *Script {
